@@ -2,9 +2,9 @@
    Model.Reactor mirrors chython/reactor/base.py (BaseReactor._get_deleted as it is after fix: b90326c, the structural
    part of BaseReactor._patcher) and chython/reactor/reactor.py:fix_mapping_overlap. *)
 From Coq Require Import ZArith List Bool Permutation.
-From Model Require Import PyBase Graph Reactor ReactorStage ReactorQueue Stereo.
+From Model Require Import PyBase Graph Reactor ReactorStage ReactorQueue ReactorPrepared Stereo.
 From Gen Require Import ReactorShape.
-From Proofs Require Import ReactorShapeProofs ReactorProofs ReactorExt ReactorEquiv ReactorCompose StereoProofs ReactorStereo ReactorStereo2 ReactorQueueProofs ReactorQueueComplete ReactorStageEquiv ReactorStates.
+From Proofs Require Import ReactorShapeProofs ReactorProofs ReactorExt ReactorEquiv ReactorCompose StereoProofs ReactorStereo ReactorStereo2 ReactorQueueProofs ReactorQueueComplete ReactorStageEquiv ReactorStates ReactorPreparedProofs.
 Import ListNotations.
 Open Scope Z_scope.
 
@@ -694,3 +694,35 @@ Theorem C16_patcher_states_final : forall g mapping tpl del,
   match patcher_states g mapping tpl del with Ok (_, _, _, r) => Ok r | Err e => Err e end.
 Proof. exact patcher_states_final. Qed.
 Print Assumptions C16_patcher_states_final.
+
+(* ====================================================================================================
+   PreparedReactor.__call__ (the built-in reaction collections), multi-step mode (Model.ReactorPrepared; generic in the
+   types of reactors and molecules; rx( *rct), str(r) and fix_mapping_overlap are Section variables)
+   ==================================================================================================== *)
+(* nothing is yielded twice and every yielded reaction is one stage of a (reactor, reactants) pair reached from the initial
+   stack by the push rule *)
+Theorem C16_multistep_sound : forall (T M K : Type) (key_eqb : K -> K -> bool) react (key : list M -> list M -> K) overlap rxn_ms allowed
+    molecules excess,
+  (forall a b, key_eqb a b = true <-> a = b) ->
+  forall fuel ys e ok,
+    multistep T M K key_eqb react key overlap rxn_ms allowed molecules excess fuel = (ys, e, ok) ->
+    NoDup (map (ykey M K key) ys) /\ Forall (from_stage T M react overlap rxn_ms allowed molecules excess) ys.
+Proof. exact multistep_sound. Qed.
+Print Assumptions C16_multistep_sound.
+
+(* default excess: after a yielded reaction EVERY reactant of the call (every position behind the products in
+   fix_mapping_overlap(products + molecules)) is dropped in turn, for every reactor not used yet *)
+Theorem C16_pushes_cover : forall (T M : Type) (overlap : list M -> list M) (molecules : list M) (excess : option (list M)),
+  excess = None ->
+  forall (prods : list M) (nxt : list T) n m nrx,
+    let x := overlap (prods ++ molecules) in
+    (length prods <= n < length x)%nat -> nth_error nxt m = Some nrx ->
+    In (nrx, remove_nth n x, remove_nth m nxt) (pushes T M overlap molecules excess prods nxt).
+Proof. exact pushes_cover. Qed.
+Print Assumptions C16_pushes_cover.
+
+Theorem C16_multistep_example :
+  multistep Z Z (list Z) (list_eqb Z.eqb) pr_react (fun rct p => rct ++ p) (fun x => x) [1%Z; 2%Z] (fun _ => true) [10%Z; 20%Z] None 50
+    = ([([10; 20], [11]); ([11; 20], [12])]%Z, None, true).
+Proof. exact multistep_example. Qed.
+Print Assumptions C16_multistep_example.
